@@ -123,10 +123,17 @@ var solvers = []solverSpec{
 var solverSem = make(chan struct{}, 14)
 
 func runSolver(sp solverSpec, file string, timeoutS int) SolverResult {
+	return runSolverCtx(context.Background(), sp, file, timeoutS)
+}
+
+func runSolverCtx(parent context.Context, sp solverSpec, file string, timeoutS int) SolverResult {
 	solverSem <- struct{}{}
 	defer func() { <-solverSem }()
+	if parent.Err() != nil {
+		return SolverResult{Status: "cancelled", Solver: sp.name}
+	}
 	args := sp.args(file, timeoutS)
-	ctx, cancel := context.WithTimeout(context.Background(), time.Duration(timeoutS+5)*time.Second)
+	ctx, cancel := context.WithTimeout(parent, time.Duration(timeoutS+5)*time.Second)
 	defer cancel()
 	cmd := exec.CommandContext(ctx, args[0], args[1:]...)
 	var out bytes.Buffer
@@ -166,8 +173,8 @@ func runSolver(sp solverSpec, file string, timeoutS int) SolverResult {
 func solve(file string, timeoutS int, want2 bool) (SolverResult, []SolverResult) {
 	var all []SolverResult
 	quickT := timeoutS
-	if quickT > 4 {
-		quickT = 4
+	if quickT > 2 {
+		quickT = 2
 	}
 	r := runSolver(solvers[0], file, quickT)
 	all = append(all, r)
@@ -176,6 +183,8 @@ func solve(file string, timeoutS int, want2 bool) (SolverResult, []SolverResult)
 	}
 	var wg sync.WaitGroup
 	res := make([]SolverResult, 3)
+	ctx, cancel := context.WithCancel(context.Background())
+	defer cancel()
 	for i := 0; i < 3; i++ {
 		if i == 0 && (r.Status == "unsat" || r.Status == "sat" || timeoutS <= quickT) {
 			continue
@@ -183,7 +192,10 @@ func solve(file string, timeoutS int, want2 bool) (SolverResult, []SolverResult)
 		wg.Add(1)
 		go func(i int) {
 			defer wg.Done()
-			res[i] = runSolver(solvers[i], file, timeoutS)
+			res[i] = runSolverCtx(ctx, solvers[i], file, timeoutS)
+			if (res[i].Status == "unsat" || res[i].Status == "sat") && !want2 {
+				cancel() // first decisive answer wins; stop the others
+			}
 		}(i)
 	}
 	wg.Wait()
